@@ -90,6 +90,15 @@ STRENGTH = {
     'C17h': 'hostile kinds `replay_last` (an authentic datagram of the peer once more) and `own_request_then_stale_answer` (the daemon\'s own rekey, its follow-up DELETE outstanding, the first answer delivered again, then the timers)',
     'C18h': '`Cookie.tla` requests carry what the negotiation would say about them (`ok` / `wrongke` / `noproposal`): without the right cookie the answer is COOKIE whatever the request is like',
     'C19h': '`Config.tla`: lists that name the same algorithm twice (the same name; a number and a name of one group)',
+    'C01i': 'the same endpoint requests several PFS exchanges in a row on one IKE_SA, for a MODP and an ECP group, with the PFS group equal to / different from the IKE_SA\'s',
+    'C02i': '(was detected by the positive control of the impersonation harness, which stopped with a machinery error) an AUTH computed by the independent implementation with the configured secret that is REFUSED is a violation',
+    'C08i': '(was detected, then the harness crashed: a StopIteration in the exchange tracker left a pool worker) an answer that belongs to another exchange than the request is a `window` / `reply` mismatch',
+    'C13i': 'scenario `liveness_is_per_ike_sa`: two IKE_SAs with one peer, the peer loses one of them, the other stays busy - the orphaned one is probed and removed within its own bound',
+    'C14i': 'kernel events with IPv6 addresses whose upper 96 bits are zero (`::1`, `::192.168.0.1`) and the extreme ones',
+    'C15i': 'the fake kernel honours `xfrm_usersa_flush.proto` (0 = every protocol); the state left behind by an earlier incarnation contains ESP and AH SAs',
+    'C16i': 'an exception / a reply on the delivery of a datagram for an SPI that is not (or no longer) in the table belongs to C16',
+    'C18i': '`Cookie.tla` fill `churn`: the half-open IKE_SAs are what remains after one more was created (the later ones with a cookie) and the first one went on to completion',
+    'C20i': 'failure / follow-up scenarios with opposite preference orders on the two peers and the follow-up exchanges started by the original responder (an IKE_SA rekey then changes PRF, integrity and key length)',
     'C19f': '`Config.tla`: secrets with blanks / tabs / line ends at either end and of the other letter case; float values (`.inf`, `.nan`, `1.5`); the cross-key rule "not all algorithm lists empty"',
 }
 ANTICIPATED = {'C13c', 'C18c', 'C09d', 'C16d', 'C18d'}
@@ -97,13 +106,13 @@ AFTER_REPORT = {'C01e'}       # strengthened after reading the agent's report, b
 
 
 def main():
-    rows, counts = [], {1: [0, 0], 2: [0, 0], 3: [0, 0], 4: [0, 0], 5: [0, 0], 6: [0, 0], 7: [0, 0], 8: [0, 0]}
+    rows, counts = [], {1: [0, 0], 2: [0, 0], 3: [0, 0], 4: [0, 0], 5: [0, 0], 6: [0, 0], 7: [0, 0], 8: [0, 0], 9: [0, 0]}
     for p in sorted(glob.glob(os.path.join(VERIF, 'seeded', '*', 'meta.json'))):
         m = json.load(open(p))
         k = m['name']
         if not m.get('caught_by'):
             raise SystemExit(f'{k} is not caught')
-        outright = not m.get('history') and k not in ('C07', 'C04f') and k not in ANTICIPATED and k not in AFTER_REPORT
+        outright = not m.get('history') and k not in ('C07', 'C04f', 'C08i', 'C02i') and k not in ANTICIPATED and k not in AFTER_REPORT
         r = m.get('round', 1)
         counts[r][1] += 1
         counts[r][0] += 1 if outright else 0
@@ -111,7 +120,7 @@ def main():
     total = sum(c[1] for c in counts.values())
     out = ['### 0.7 Seeded changes: which check catches which change\n',
            f'{total} changes were written by fresh sub-agents (one per property and round) that saw **only the text of the property** and a scratch worktree of `/repo` -',
-           'nothing from `/verif`; rounds 2 to 8 were additionally told which ideas the earlier rounds had used and to stay away from them.  Each change compiles, leaves the',
+           'nothing from `/verif`; rounds 2 to 9 were additionally told which ideas the earlier rounds had used and to stay away from them.  Each change compiles, leaves the',
            'repository\'s test suite at 176 passed / 11 failed, comes with a demonstration (`demo_seed.py`: PASS on the original, FAIL on the change) and was confirmed by',
            '`harness/seedeval.py` in a fresh worktree before the check of its property was run on it (`VERIF_REPO=<worktree>`, quick tier).  Patch, demonstration and',
            '`meta.json` (what it needs to manifest, what was run, the outcome before and after strengthening) are in `/verif/seeded/<id>/`; none of them was ever applied to `/repo`.\n',
@@ -124,7 +133,7 @@ def main():
            '| seed | change | needs | caught outright | what was added when it was missed |', '|---|---|---|---|---|']
     for r in rows:
         out.append('| ' + ' | '.join(x.replace('|', '/') for x in r) + ' |')
-    out.append('\nSeveral times a seeded tree made the *harness* raise (exit 2) after or instead of reporting: an independent-codec error inside a replay (C07), a negotiation history that found no CHILD_SA to rekey (C04f), the event')
+    out.append('\nSeveral times a seeded tree made the *harness* raise (exit 2) after or instead of reporting: an independent-codec error inside a replay (C07), a negotiation history that found no CHILD_SA to rekey (C04f), the exchange tracker meeting the answer of another exchange (C08i), the event')
     out.append('description of a rejected trace (C08b, C09b), a comparison of addresses of two families (C15).  Each was an unguarded assumption of the harness about the')
     out.append('implementation\'s output; they were turned into reported mismatches.  Exit 2 remains reserved for failures of the machinery itself.\n')
     txt = '\n'.join(out) + '\n'
